@@ -48,18 +48,24 @@ def run(tier, seed, selftest=False, replay=None):
         if tier == "quick":      # two base programs per language, the histories split over two processes each
             half = (len(hists) + 1) // 2
             jobs = [(lang, [seed * 100 + 4 * i + LANGS.index(lang)], part) for lang in LANGS for i in range(2) for part in (0, 1)]
+        else:                    # every base program: all histories of <= 2 steps; the longer ones are dealt over the 10 programs of a language
+            jobs = [(lang, [seed * 100 + 4 * i + LANGS.index(lang)], i) for lang in LANGS for i in range(nseeds)]
     T("generated %d histories, %d (language, base program) jobs" % (len(hists), len(jobs)))
     d = subdir("c11")
     hf = write_json(os.path.join(d, "hists.json"), hists)
     if jobs and len(jobs[0]) == 3:
-        hfs = [write_json(os.path.join(d, "hists%d.json" % k), hists[k * half:(k + 1) * half]) for k in (0, 1)]
+        if tier == "quick":
+            hfs = [write_json(os.path.join(d, "hists%d.json" % k), hists[k * half:(k + 1) * half]) for k in (0, 1)]
+        else:
+            short, rest = [h for h in hists if len(h) <= 2], [h for h in hists if len(h) > 2]
+            hfs = [write_json(os.path.join(d, "hists%d.json" % k), short + rest[k::nseeds]) for k in range(nseeds)]
 
     def ex(i):
         if len(jobs[i]) == 3:
             lang, seeds, part = jobs[i]
-            return json.loads(run_driver("trans_exec.py", [lang, json.dumps(seeds), hfs[part], os.path.join(d, "trace%d.json" % i)], timeout=3000))
+            return json.loads(run_driver("trans_exec.py", [lang, json.dumps(seeds), hfs[part], os.path.join(d, "trace%d.json" % i)], timeout=3400))
         lang, seeds = jobs[i]
-        return json.loads(run_driver("trans_exec.py", [lang, json.dumps(seeds), hf, os.path.join(d, "trace%d.json" % i)], timeout=3000))
+        return json.loads(run_driver("trans_exec.py", [lang, json.dumps(seeds), hf, os.path.join(d, "trace%d.json" % i)], timeout=3400))
     files = [f for fl in parallel(ex, range(len(jobs))) for f in fl]
     T("executed")
     if selftest:
